@@ -195,3 +195,16 @@ package codegen
 //@   ensures [sint] format == ir.StorageFormatR8Sint || format == ir.StorageFormatR16Sint || format == ir.StorageFormatR32Sint ==> result == "int"
 //@   pure
 //@   nopanic
+
+// ---- zero-initialisation loop of large workgroup arrays (C15, C03) ------------------------------------
+//
+// WGSL zero-initialises workgroup memory. Large arrays are cleared element by
+// element: the loop runs over the array's *length*, and the loop for a nested
+// array uses the next loop variable (depth+1) on the element type.
+// (varargK = K-th operand of the format string.)
+//
+//@ func (*Writer).writeWorkgroupZeroInit
+//@   mode bv
+//@   tags C15 C03
+//@   at WriteLine assert [loop-covers-array] arg1 == "for (uint %s = 0u; %s < %du; %s++) {" ==> vararg2 == size
+//@   at (*Writer).writeWorkgroupZeroInit assert [nested-loop] arg2 == arr.Base && arg3 == depth + 1
